@@ -5,7 +5,7 @@ CONSTANTS
   ValKinds = {"x", "nan"}
   NFeat = 2
   MaxRows = 3
-  IdKinds = {"str", "int", "cat", "negint", "float", "emptystr", "nanid", "mixed"}
+  IdKinds = {"str", "int", "cat", "negint", "float", "emptystr", "nanid", "mixed", "nullint", "catnan"}
   TextCols = {FALSE, TRUE}
 INVARIANT OneRowPerIndividual
 INVARIANT VisitsSorted
